@@ -59,6 +59,9 @@ CHECKS = {
  "C17": dict(level="model_checking", design="4/C17", technique="TLA+ Radv (what an advertisement must decode to, per erbium.conf(5) and RFC 4861/8106/8781/8910): TLC checks the model's field lemmas (MC_Radv) and derives, per recorded case, the expected advertisement and compares it with the harness's RFC decoding of what the real loader + builder + serialiser produced (RadvTrace)",
    text="For generated interface configurations (every field absent/null/value, lifetimes at every field boundary up to 2^32, 0..16 prefixes with host bits, $self6 substitution, NAT64 lengths, URLs of 0..240 octets) the advertisement built by the real code is decoded by an independent RFC decoder and TLC decides equality with the configuration: header fields, option multiset, per-option content, layout (multiples of 8, reserved bits zero, host bits zero), clamped or rejected when a value does not fit its field.",
    note="function level through the hook radv::verif_build_ra; the periodic scheduler and the raw ICMPv6 socket are not driven; there is no interleaving to explore, the MC part covers only the arithmetic lemmas of the model"),
+ "C05": dict(level="exploration", design="4/C05", technique="TLA+ WireGrammar (the structured input space, enumerated exhaustively by TLC) + TLC trace validation (IngestTrace: outcome in {ok, err}, every planned case fed, valid request still served) of the real decoders/handlers in a child process and of the real DNS service under hostile datagrams, TCP streams and upstream replies",
+   text="TLC enumerates the product of (format x item x boundary length x fill x honesty of the declared length), DNS name shapes (self/loops/chains/forward/out-of-bounds pointers, label and name length boundaries) x 15 positions, record types x rdlengths, OPT placements, header fields x boundary values; the harness assembles a consistent packet per case and runs everything the services do with it (decode, logging accessors, handle_pkt, reply framing, cache insert and lookups hours later); plus every truncation and boundary octet at every offset of seed packets and seeded random strings; a stratified sample also goes through the real DNS listeners (UDP, TCP with lying frames) and through scripted upstreams, after which valid queries must be answered. Exploration, not proof: the byte-string space is sampled by structure.",
+   note="outcomes panic/abort/hang are observed per input in a child process; DHCP/RA/LLDP services are exercised at function level (no raw-frame rig); the spec part is an input grammar and an outcome predicate, there is no interleaving to model-check"),
 }
 NOT_APPLICABLE = []
 
